@@ -360,6 +360,17 @@ _W = {}
 
 
 def _worker_init(prop_id, mutant):
+    # an initialiser that raises makes multiprocessing respawn the worker for ever: keep the error and let every task
+    # of this worker report it as inconclusive instead
+    try:
+        _worker_init_inner(prop_id, mutant)
+    except BaseException as exc:
+        from . import registry
+        _W.update(prop=registry.get(prop_id), SH=None, OR=None, mutant=mutant,
+                  init_error="worker initialisation failed: %r %s" % (exc, traceback.format_exc(limit=8)))
+
+
+def _worker_init_inner(prop_id, mutant):
     from . import registry
     prop = registry.get(prop_id)
     mutate = None
@@ -390,6 +401,8 @@ def _worker_run(task):
     prop = _W['prop']
     try:
         sys.setrecursionlimit(20000)
+        if _W.get('init_error'):
+            raise RuntimeError(_W['init_error'])
         res = explore_shape(prop, _W['SH'], _W['OR'], shape, validate=validate and not _W['mutant'])
     except BaseException as exc:   # never let a worker die silently
         res = dict(shape=shape, paths=0, aborted=0, reached=0, queries=0, validated=0, ces=[],
